@@ -23,7 +23,7 @@ ASSUMPTIONS = ['no reload/restart in this workload (queue order is rebuilt '
                'there)', 'manual triggers not generated here']
 MIN = {'c05.limited_queue_checks': 1500, 'c05.released_up_to_limit': 100,
        'c05.fifo_checks': 300}
-NCASES = {'quick': 300, 'thorough': 4000}
+NCASES = {'quick': 1000, 'thorough': 12000}
 
 
 def ncases(tier):
